@@ -660,9 +660,12 @@ def r7_subspace_typing(ctx):
     coefficient is built from another mode's mass / damping / frequency (invisible when the properties are uniform or the selected modes are
     the leading ones, as in every test)."""
     from .e3_masks import MaskTyper, A, I, S
-    for rel, qual, params, sizes in (
+    base_attrs = {"self.nonrf": I("N", "K"), "self.kdof": I("N", "K"), "self.rf": I("N", "N/rf"), "self.k": A("K"), "self.b": A("K"), "self.m": A("K")}
+    for rel, qual, params, sizes, floor in (
             (UTIL, "get_su_coef", {"m": A("K"), "b": A("K"), "k": A("K"), "h": S, "rbmodes": I("K", "K/rbmodes"), "rfmodes": I("K", "K/rfmodes")},
-             {"n": "K"}),
+             {"n": "K"}, 60),
+            (BASEF, "_BaseODE._make_rb_el", dict(base_attrs, rb=I("N", "N/rb")), {"self.n": "N", "self.ksize": "K"}, 8),
+            (BASEF, "_BaseODE._chk_diag_part", {"m": A("N"), "b": A("N"), "k": A("N"), "self.nonrf": I("N", "K"), "self.rf": I("N", "N/rf")}, {}, 6),
     ):
         fn = ctx.src.func(rel, qual)
         bad = []
@@ -670,8 +673,19 @@ def r7_subspace_typing(ctx):
         def report(kind, node, detail, bad=bad):
             bad.append((kind, node, detail))
 
-        T = MaskTyper(params, sizes, report)
+        T = MaskTyper(params, sizes, report, passthrough={"self._ensure_index_type"}, cond={"self.rfsize": True} if qual.endswith("_chk_diag_part") else None)
         T.run(fn.body)
+        if qual.endswith("_make_rb_el"):
+            # what the method publishes: rb, el index the full set; _rb, _el index the non-rf set (the table the other rules rely on)
+            for attr, dom in (("self.rb", "N"), ("self.el", "N"), ("self._rb", "K"), ("self._el", "K")):
+                t = T.attr_types.get(attr)
+                ok = isinstance(t, I) and t.dom == dom
+                ctx.check(ok, f"_make_rb_el: `{attr}` holds positions relative to the {'full' if dom == 'N' else 'non-rf'} equation set", fn, repr(t))
+        if qual.endswith("_chk_diag_part"):
+            for attr, sp in (("self.m", "K"), ("self.b", "K"), ("self.k", "K"), ("self.krf", "N/rf")):
+                t = T.attr_types.get(attr)
+                ok = isinstance(t, A) and t.s in (sp, None) and (t.s == sp or attr == "self.m")
+                ctx.check(ok, f"_chk_diag_part: `{attr}` is stored on the {'non-rf' if sp == 'K' else 'rf'} equations when there are rf modes", fn, repr(t))
         seen = set()
         for kind, node, detail in bad:
             key = f"C01-R7|{qual}|{kind}|{ast.unparse(node)[:60]}"
@@ -679,8 +693,8 @@ def r7_subspace_typing(ctx):
                 continue
             seen.add(key)
             ctx.fail(f"{qual}: {kind}", node, detail, key=key)
-        ctx.check(T.resolved >= 60, f"{qual}: {T.resolved} selections / stores / elementwise operations typed (mask and index sub-spaces of the mode list)", fn,
-                  T.resolved, nontrivial=T.resolved >= 60)
+        ctx.check(T.resolved >= floor, f"{qual}: {T.resolved} selections / stores / elementwise operations typed (mask and index sub-spaces of the mode list)", fn,
+                  T.resolved, nontrivial=T.resolved >= floor)
         if not bad:
             ctx.ok(f"{qual}: every selector is applied to an array of its own space and every store receives values of the selected sub-space", fn)
 
@@ -691,7 +705,7 @@ RULES = [
     ("C01-R3", r3_partition_typing, 60),
     ("C01-R4", r4_frame_typing, 14),
     ("C01-R6", r6_equilibrium_acceleration, 11),
-    ("C01-R7", r7_subspace_typing, 2),
+    ("C01-R7", r7_subspace_typing, 12),
 ]
 
 LEVEL = "other"
